@@ -768,6 +768,174 @@ theorem constructor_reach_one (numCells nPrim nSec : Nat) (entries : List Ent) (
     subst hx
     exact h1)
 
+/-! ### 2-D mortar grids: nested triangle refinements (`match_2d`) -/
+
+/-- The children of a nested refinement partition the parent: their (signed) areas add up to the
+    parent's area — for every recipe, every triangle. -/
+theorem refine_area : ∀ (r : Ref) (t : Tri), sumL ((refine r t).map area2) = area2 t
+  | .leaf, t => by simp [refine, sumL]
+  | .edge s l r, t => by
+    simp only [refine, List.map_append, sumL_append, refine_area l, refine_area r]
+    unfold area2 lerp; simp only; ring
+  | .rot r, t => by
+    simp only [refine, refine_area r]
+    unfold area2; simp only; ring
+  | .centre u v r1 r2 r3, t => by
+    simp only [refine, List.map_append, sumL_append, refine_area r1, refine_area r2, refine_area r3]
+    unfold area2 bary; simp only; ring
+  | .red r1 r2 r3 r4, t => by
+    simp only [refine, List.map_append, sumL_append, refine_area r1, refine_area r2, refine_area r3,
+      refine_area r4]
+    unfold area2 lerp; simp only; ring
+
+/-- … and all children keep the orientation of the parent (positive area): new nodes strictly inside
+    an edge / the triangle never produce degenerate or flipped cells. -/
+theorem refine_pos : ∀ (r : Ref) (t : Tri), r.Valid → 0 < area2 t → ∀ c ∈ refine r t, 0 < area2 c
+  | .leaf, t, _, ht, c, hc => by
+    simp only [refine, List.mem_singleton] at hc; rw [hc]; exact ht
+  | .edge s l r, t, hv, ht, c, hc => by
+    obtain ⟨hs0, hs1, hl, hr⟩ := hv
+    simp only [refine, List.mem_append] at hc
+    rcases hc with hc | hc
+    · refine refine_pos l _ hl ?_ c hc
+      have : area2 ⟨t.a, t.b, lerp t.b t.c s⟩ = s * area2 t := by unfold area2 lerp; simp only; ring
+      rw [this]; exact mul_pos hs0 ht
+    · refine refine_pos r _ hr ?_ c hc
+      have : area2 ⟨t.a, lerp t.b t.c s, t.c⟩ = (1 - s) * area2 t := by unfold area2 lerp; simp only; ring
+      rw [this]; exact mul_pos (by linarith) ht
+  | .rot r, t, hv, ht, c, hc => by
+    simp only [refine] at hc
+    refine refine_pos r _ hv ?_ c hc
+    have : area2 ⟨t.b, t.c, t.a⟩ = area2 t := by unfold area2; simp only; ring
+    rw [this]; exact ht
+  | .centre u v r1 r2 r3, t, hv, ht, c, hc => by
+    obtain ⟨hu, hv', huv, h1, h2, h3⟩ := hv
+    simp only [refine, List.mem_append] at hc
+    rcases hc with hc | hc | hc
+    · refine refine_pos r1 _ h1 ?_ c hc
+      have : area2 ⟨bary t u v, t.b, t.c⟩ = (1 - u - v) * area2 t := by unfold area2 bary; simp only; ring
+      rw [this]; exact mul_pos (by linarith) ht
+    · refine refine_pos r2 _ h2 ?_ c hc
+      have : area2 ⟨t.a, bary t u v, t.c⟩ = u * area2 t := by unfold area2 bary; simp only; ring
+      rw [this]; exact mul_pos hu ht
+    · refine refine_pos r3 _ h3 ?_ c hc
+      have : area2 ⟨t.a, t.b, bary t u v⟩ = v * area2 t := by unfold area2 bary; simp only; ring
+      rw [this]; exact mul_pos hv' ht
+  | .red r1 r2 r3 r4, t, hv, ht, c, hc => by
+    obtain ⟨h1, h2, h3, h4⟩ := hv
+    simp only [refine, List.mem_append] at hc
+    have q : (0 : Rat) < 1 / 4 * area2 t := by linarith
+    rcases hc with hc | hc | hc | hc
+    · refine refine_pos r1 _ h1 ?_ c hc
+      have : area2 ⟨t.a, lerp t.a t.b (1 / 2), lerp t.c t.a (1 / 2)⟩ = 1 / 4 * area2 t := by
+        unfold area2 lerp; simp only; ring
+      rw [this]; exact q
+    · refine refine_pos r2 _ h2 ?_ c hc
+      have : area2 ⟨lerp t.a t.b (1 / 2), t.b, lerp t.b t.c (1 / 2)⟩ = 1 / 4 * area2 t := by
+        unfold area2 lerp; simp only; ring
+      rw [this]; exact q
+    · refine refine_pos r3 _ h3 ?_ c hc
+      have : area2 ⟨lerp t.c t.a (1 / 2), lerp t.b t.c (1 / 2), t.c⟩ = 1 / 4 * area2 t := by
+        unfold area2 lerp; simp only; ring
+      rw [this]; exact q
+    · refine refine_pos r4 _ h4 ?_ c hc
+      have : area2 ⟨lerp t.a t.b (1 / 2), lerp t.b t.c (1 / 2), lerp t.c t.a (1 / 2)⟩ = 1 / 4 * area2 t := by
+        unfold area2 lerp; simp only; ring
+      rw [this]; exact q
+
+
+theorem kids_bounds : ∀ (ps : List Tri) (rs : List Ref) (k : Nat), ∀ x ∈ kidsFrom k ps rs,
+    k ≤ x.1 ∧ x.1 < k + ps.length
+  | [], _, _, x, hx => by simp [kidsFrom] at hx
+  | _ :: _, [], _, x, hx => by simp [kidsFrom] at hx
+  | p :: ps, r :: rs, k, x, hx => by
+    simp only [kidsFrom, List.mem_append, List.mem_map] at hx
+    rcases hx with ⟨c, _, rfl⟩ | hx
+    · simp
+    · have := kids_bounds ps rs (k + 1) x hx
+      simp only [List.length_cons]; omega
+
+theorem kids_pos : ∀ (ps : List Tri) (rs : List Ref) (k : Nat), (∀ p ∈ ps, 0 < area2 p) → (∀ r ∈ rs, r.Valid) →
+    ∀ x ∈ kidsFrom k ps rs, 0 < area2 x.2
+  | [], _, _, _, _, x, hx => by simp [kidsFrom] at hx
+  | _ :: _, [], _, _, _, x, hx => by simp [kidsFrom] at hx
+  | p :: ps, r :: rs, k, hp, hr, x, hx => by
+    simp only [kidsFrom, List.mem_append, List.mem_map] at hx
+    rcases hx with ⟨c, hc, rfl⟩ | hx
+    · exact refine_pos r p (hr r List.mem_cons_self) (hp p List.mem_cons_self) c hc
+    · exact kids_pos ps rs (k + 1) (fun q hq => hp q (List.mem_cons_of_mem _ hq))
+        (fun q hq => hr q (List.mem_cons_of_mem _ hq)) x hx
+
+/-- the children listed for parent `j` carry exactly the parent's area -/
+theorem kids_sum (j : Nat) (c0 : Rat) : ∀ (ps : List Tri) (rs : List Ref) (k : Nat), rs.length = ps.length →
+    sumL ((kidsFrom k ps rs).map fun x => if x.1 = j then area2 x.2 * c0 else 0) =
+      if k ≤ j ∧ j < k + ps.length then area2 (triAt ps (j - k)) * c0 else 0
+  | [], [], k, _ => by simp [kidsFrom, sumL]
+  | [], _ :: _, _, h => by simp at h
+  | _ :: _, [], _, h => by simp at h
+  | p :: ps, r :: rs, k, h => by
+    have hl : rs.length = ps.length := by simpa using h
+    simp only [kidsFrom, List.map_append, List.map_map, sumL_append, kids_sum j c0 ps rs (k + 1) hl,
+      Function.comp_def, List.length_cons]
+    by_cases hk : k = j
+    · subst hk
+      simp only [if_true]
+      rw [sumL_map_mul_right, refine_area r p, if_neg (by omega), if_pos (by omega)]
+      simp [triAt]
+    · simp only [if_neg hk, sumL_map_zero, zero_add]
+      by_cases hc : k + 1 ≤ j ∧ j < k + 1 + ps.length
+      · rw [if_pos hc, if_pos (by omega)]
+        have : j - k = (j - (k + 1)) + 1 := by omega
+        simp [triAt, this]
+      · rw [if_neg hc, if_neg (by omega)]
+
+
+
+/-- `match_2d` on a nested refinement, scaling "averaged": every row sums to one. -/
+theorem match2d_nested_avg_rowsum_one (parents : List Tri) (recipes : List Ref)
+    (hp : ∀ p ∈ parents, 0 < area2 p) (hr : ∀ r ∈ recipes, r.Valid)
+    (i : Nat) (hi : i < (kidsFrom 0 parents recipes).length) :
+    (match2dNested parents recipes .averaged).rowSum i = 1 := by
+  have hmem : kidAt (kidsFrom 0 parents recipes) i ∈ kidsFrom 0 parents recipes := getD_mem _ _ i hi
+  have hb := kids_bounds parents recipes 0 _ hmem
+  have hpos := kids_pos parents recipes 0 hp hr _ hmem
+  unfold Mat.rowSum match2dNested
+  simp only [table_c]
+  rw [sumTo_congr _ _ _ (fun j hj => ent_table _ _ _ i j hi hj),
+    sumTo_single parents.length (kidAt (kidsFrom 0 parents recipes) i).1 (by omega) _
+      (fun j _ hne => if_neg (fun h => hne h.symm))]
+  simp only [if_true]
+  exact div_self (ne_of_gt hpos)
+
+/-- `match_2d` on a nested refinement, scaling "integrated": every column sums to one — the children
+    of an old cell carry exactly its area (`refine_area`). -/
+theorem match2d_nested_int_colsum_one (parents : List Tri) (recipes : List Ref)
+    (hlen : recipes.length = parents.length) (hp : ∀ p ∈ parents, 0 < area2 p)
+    (j : Nat) (hj : j < parents.length) :
+    (match2dNested parents recipes .integrated).colSum j = 1 := by
+  have hpj : 0 < area2 (triAt parents j) := hp _ (getD_mem parents _ j hj)
+  unfold Mat.colSum match2dNested
+  simp only [table_r]
+  rw [sumTo_congr _ _ _ (fun i hi => ent_table _ _ _ i j hi hj)]
+  simp only [div_eq_mul_inv]
+  unfold kidAt
+  rw [sumTo_getD (kidsFrom 0 parents recipes) _
+      (fun x => if x.1 = j then area2 x.2 * (area2 (triAt parents j))⁻¹ else 0),
+    kids_sum j _ parents recipes 0 hlen, if_pos (by omega)]
+  simp only [Nat.sub_zero]
+  exact mul_inv_cancel₀ (ne_of_gt hpj)
+
+/-- the overlap weights themselves: row `i` has the single entry `area(new cell i)` in the column of
+    its parent (before scaling), so rows sum to the new cell's area and columns to the old cell's -/
+theorem match2d_nested_weights (parents : List Tri) (recipes : List Ref)
+    (hlen : recipes.length = parents.length) (j : Nat) (hj : j < parents.length) :
+    sumL ((kidsFrom 0 parents recipes).map fun x => if x.1 = j then area2 x.2 else 0) =
+      area2 (triAt parents j) := by
+  have := kids_sum j 1 parents recipes 0 hlen
+  simp only [mul_one] at this
+  rw [this, if_pos (by omega)]
+  simp
+
 /-! ### non-vacuity: concrete data satisfying the hypotheses -/
 section nonvacuity
 /-- two tessellations of [0,1]: cells listed right-to-left / left-to-right -/
@@ -884,6 +1052,30 @@ example : ∃ L pr, IReach 4 2 L pr ∧ L.length = 2 :=
       rcases hx with rfl | rfl
       · exact mortar_update_valid exCtx exSide0 exNew exOld2 0 _ _ exNew_tess exOld2_tess rfl rfl
       · exact identity_update_valid exCtx exSide0), rfl⟩
+
+/-- nested refinement of the unit square cut into two triangles: a bisection followed by a relabelled
+    leaf, and a regular refinement with an interior node in its middle child -/
+def exParents : List Tri := [⟨(0, 0), (1, 0), (1, 1)⟩, ⟨(0, 0), (1, 1), (0, 1)⟩]
+def exRecipes : List Ref :=
+  [.edge (1 / 4) .leaf (.rot .leaf), .red .leaf .leaf .leaf (.centre (1 / 4) (1 / 2) .leaf .leaf .leaf)]
+
+theorem exRecipes_valid : ∀ r ∈ exRecipes, r.Valid := by
+  intro r hr
+  simp only [exRecipes, List.mem_cons, List.not_mem_nil, or_false] at hr
+  rcases hr with rfl | rfl <;> simp only [Ref.Valid] <;> norm_num
+
+theorem exParents_pos : ∀ p ∈ exParents, 0 < area2 p := by
+  intro p hp
+  simp only [exParents, List.mem_cons, List.not_mem_nil, or_false] at hp
+  rcases hp with rfl | rfl <;> simp only [area2] <;> norm_num
+
+example : (kidsFrom 0 exParents exRecipes).length = 8 := by decide +kernel
+example : ∀ i, i < 8 → (match2dNested exParents exRecipes .averaged).rowSum i = 1 :=
+  fun i hi => match2d_nested_avg_rowsum_one exParents exRecipes exParents_pos exRecipes_valid i hi
+example : ∀ j, j < 2 → (match2dNested exParents exRecipes .integrated).colSum j = 1 :=
+  fun j hj => match2d_nested_int_colsum_one exParents exRecipes rfl exParents_pos j hj
+example : ((match2dNested exParents exRecipes .integrated).rows.map fun r => r.getD 1 0) =
+    [0, 0, 1/4, 1/4, 1/4, 1/16, 1/16, 1/8] := by decide +kernel
 
 end nonvacuity
 
